@@ -1,117 +1,175 @@
-/-! Model of the state that independent SDK objects share (C15).
+import FitModel.SharedInv
+/-! Model of the state that independent SDK objects share (C15), built over the rows of the regenerated inventory
+(`FitModel/SharedInv.lean`, `FitModel/Generated/SharedState.lean`).
 
-What the library's objects share (found by reading the code and by `-race` runs of the harness):
+**Shared part of the state** = one cell per inventory row:
+* a data row (table, map, pointer, …): its current content `cell r` — an abstract value; `Env.built r` is the content the
+  row's `sync.Once` closure builds, `Env.half r` the content it has between the store that publishes the variable
+  (`protoMesgs = make(…)`) and the end of the filling loop;
+* a `sync.Once` row: `idle`, `running owner k` (the closure is being executed by thread `owner`, `k` of its steps are
+  done; every other thread calling `Do` blocks), `done`;
+* a `sync.Pool` row: the objects in the pool, as identities into a shared `heap` (identity matters: an object put back
+  twice can be handed to two holders);
+* the option objects a caller may share between operations (`opts`).
+**Private part** = what an operation holds: the pooled object it took (`held`), what it has observed so far (`out`).
 
-* `profile/factory`: `protoMesgs`, built lazily inside `once.Do` (factory_gen.go:46-104) and never written afterwards;
-  the static `mesgs` table (read-only). `sync.Once` orders the build before every return of `Do`.
-* `profile/mesgdef`: `var pool = sync.Pool{New: …[poolsize]proto.Field}` (mesgdef_util_gen.go): every `NewXxx/Reset` and
-  `ToMesg` does `arr := pool.Get(); fields := arr[:0]; …append…; clone; *arr = [poolsize]proto.Field{}; pool.Put(arr)`.
-  `sync.Pool` is synchronised; `Get` returns some previously `Put` array or a fresh zeroed one.
-* a caller-provided `*mesgdef.Options`: every generated `ToMesg` does
-  `if options == nil { options = defaultOptions }; fac := options.Factory; if fac == nil { fac = factory.StandardFactory() }`
-  — one unsynchronised READ of a cell the caller may share between goroutines; the default is taken in the local `fac`,
-  the caller's object is never written. (Up to /repo 1fdeae5 the nil case assigned `options.Factory = …`: a write-write
-  conflict between conversions sharing one nil-Factory options value, finding KF-C15-1 / F16, repaired in the template
-  and the 119 regenerated files; the model of that code and the conflict theorem are in the history of this file.)
-* read-only tables (`typedef` name tables, `proto` size tables, `datetime.epoch`): never written after init; not modelled as cells.
-* `cmd/fitactivity/opener`: a `sync.Pool` of decoders; a decoder taken from it is private to one worker until put back.
-
-An *operation* (decode, encode, typed conversion, file building, listener use, factory lookup) is a program: a sequence
-of atomic actions from the alphabet `Act`, each acting on the operation's private state `Priv` and the shared state `Sh`.
-Executions are arbitrary interleavings (`exec` over a schedule; each schedule entry also resolves `sync.Pool.Get`'s
-choice). An action the real code never issues before its guard (reading the lazily built table before the own `once.Do`,
-cloning without holding an array) yields the fixed marker `bad` (in Go: a nil dereference / index panic), so programs
-outside the real code's shape are covered too.
-
-Proved (FitProps/C15.lean): pool invariant, independence of results from what `Get` hands out, commutation of actions of
-different operations, no action ever writes an options object (so no conflict on one, whether its `Factory` is set or
-nil), and non-interference: under EVERY interleaving each operation's private state after j of its actions
-is what it is after j actions when run alone. Runtime truth NOT proved: that the compiled binary has no word-level data
-race; the model lists the shared cells it knows, an unmodelled shared word is visible only to the race detector
-(family `concurrent` under `-race`). -/
+An API entry point is a *program*: a list of actions over these cells. Which rows an entry point touches and how is
+regenerated from its call graph (`Gen.SharedState.classes`), `progOfTouches` turns that into a program; the theorems are
+about ALL programs that are well formed (`wf`) — the generated ones are shown to be.
+Executions are arbitrary interleavings: `exec` over a schedule of (thread, choice) pairs; the choice resolves
+`sync.Pool.Get` (any pooled object, or a new one). -/
 namespace Fit.Shared
 
-/-- a `[poolsize]proto.Field` array; 0 = the zero `proto.Field` -/
-abbrev Arr := List Nat
+/-- what the model needs to know about the rows -/
+structure Env where
+  /-- the `sync.Once` row that builds data row `r` (none: the row is not written after initialisation) -/
+  onceOf : Nat → Option Nat
+  /-- the data rows the closure of `Once` row `o` builds, in order -/
+  body : Nat → List Nat
+  /-- rows with a writer that is neither guarded nor excepted: nothing is promised about them -/
+  racy : Nat → Bool
+  /-- content of row `r` once built / between publication and the end of the filling -/
+  built : Nat → Nat
+  half : Nat → Nat
 
-def poolsize : Nat := 8   -- abstract size; nothing depends on the number
+/-- the environment is consistent: `body` and `onceOf` describe the same relation -/
+def EnvOK (env : Env) : Prop :=
+  (∀ o r, r ∈ env.body o → env.onceOf r = some o) ∧ (∀ o r, env.onceOf r = some o → r ∈ env.body o) ∧
+  (∀ o, (env.body o).Nodup)
 
-def zeroArr : Arr := List.replicate poolsize 0
+inductive OnceSt where
+  | idle
+  | running (owner : Nat) (k : Nat)
+  | done
+  deriving DecidableEq, Repr
 
-/-- marker for "this would have panicked / used an unset value" -/
+/-- marker for "this would have panicked" (no object held) -/
 def bad : Nat := 0xBAD
 
 /-- `factory.StandardFactory()` as a value of the `Factory` field -/
 def stdFactory : Nat := 1
 
-/-- the content `once.Do` builds (`protoMesgs`): a fixed function of the static profile tables -/
-def theTable (k : Nat) : Nat := k * 2 + 1
-
 structure Sh where
-  once : Bool
-  table : Nat → Nat
-  pool : List Arr
+  cell : Nat → Nat
+  once : Nat → OnceSt
+  /-- objects in pool row `p` -/
+  pool : Nat → List Nat
+  /-- content of object `id` -/
+  heap : Nat → List Nat
+  /-- next fresh object identity -/
+  next : Nat
   /-- `Factory` field of the caller's `Options` object number `o` (`none` = nil) -/
   opts : Nat → Option Nat
 
 structure Priv where
-  /-- the pooled array the operation holds between `Get` and `Put` -/
-  held : Option Arr
-  /-- the slice built by `append(arr[:0], …)` -/
-  fields : List Nat
+  /-- the pooled object held between `Get` and `Put` -/
+  held : Option Nat
+  /-- the object most recently put back (only `putAgain` looks at it) -/
+  lastPut : Option Nat
+  /-- everything the operation has observed so far: its result -/
   out : List Nat
-  /-- ghost: this operation has gone through `once.Do` -/
-  onceSeen : Bool
 
 inductive Act where
-  | onceDo
-  | readTable (k : Nat)
-  | get
-  | write (vals : List Nat)
-  | clone (k : Nat)
-  | put
-  /-- `fac := options.Factory; if fac == nil { fac = factory.StandardFactory() }` on the caller's options object `o` -/
+  /-- load of data row `r` -/
+  | read (r : Nat)
+  /-- unguarded store to data row `r` (never in a well-formed program) -/
+  | write (r : Nat) (v : Nat)
+  /-- `once.Do(closure)` on `Once` row `o`: runs the closure step by step if nobody has, blocks while somebody else does -/
+  | onceDo (o : Nat)
+  /-- `pool.Get()` on pool row `p` -/
+  | get (p : Nat)
+  /-- `append(arr[:0], vals...)` and reading the appended prefix back -/
+  | use (vals : List Nat)
+  /-- reading the held object as it is -/
+  | readObj
+  /-- `Reset` / zeroing of the held object -/
+  | reset
+  /-- `pool.Put(obj)` -/
+  | put (p : Nat)
+  /-- a second `Put` of the object just put back (never in a well-formed program) -/
+  | putAgain (p : Nat)
+  /-- `fac := options.Factory; if fac == nil { fac = StandardFactory() }` on the caller's options object `o` -/
   | optRead (o : Nat)
+  /-- `options.Factory = v` on the caller's options object (never in a well-formed program) -/
+  | optWrite (o : Nat) (v : Nat)
+  /-- a step on private state only -/
   | loc (v : Nat)
   deriving DecidableEq, Repr
 
-def initPriv : Priv := { held := none, fields := [], out := [], onceSeen := false }
+def initPriv : Priv := { held := none, lastPut := none, out := [] }
+
+def upd {α : Type} (f : Nat → α) (i : Nat) (v : α) : Nat → α := fun j => if j = i then v else f j
 
 /-- remove the `i`-th element -/
-def removeNth : List Arr → Nat → List Arr
+def removeNth : List Nat → Nat → List Nat
   | [], _ => []
   | _ :: xs, 0 => xs
   | x :: xs, i + 1 => x :: removeNth xs i
 
-/-- `pool.Get()`: `c = 0` or an empty pool → `New()`; otherwise the pooled array number `(c-1) mod len` -/
-def poolGet (pool : List Arr) (c : Nat) : Arr × List Arr :=
-  if c = 0 then (zeroArr, pool) else
-  match pool with
-  | [] => (zeroArr, [])
-  | _ => (pool.getD ((c - 1) % pool.length) zeroArr, removeNth pool ((c - 1) % pool.length))
+/-- `append(obj[:0], vals...)` as seen in the object -/
+def overlay (vals : List Nat) (a : List Nat) : List Nat := vals ++ a.drop vals.length
 
-/-- `append(arr[:0], vals...)` as seen in the array: the prefix is overwritten (what does not fit is reallocated elsewhere) -/
-def overlay (vals : List Nat) (a : Arr) : Arr := (vals ++ a.drop vals.length).take a.length
+/-- step `k` of the closure of `Once` row `o`: rows are published (even `k`) and filled (odd `k`) one after the other -/
+def closureStep (env : Env) (o k : Nat) (cell : Nat → Nat) : Nat → Nat :=
+  match (env.body o)[k / 2]? with
+  | none => cell
+  | some r => upd cell r (if k % 2 = 0 then env.half r else env.built r)
 
-/-- one atomic action of an operation with private state `p`, on shared state `sh`; `c` resolves `Get` -/
-def step (a : Act) (c : Nat) (p : Priv) (sh : Sh) : Priv × Sh :=
+def closureLen (env : Env) (o : Nat) : Nat := 2 * (env.body o).length
+
+/-- one scheduled step of thread `i` whose next action is `a`; the result says whether the action is completed (popped).
+`c` resolves `Get`. -/
+def step (env : Env) (i : Nat) (a : Act) (c : Nat) (p : Priv) (sh : Sh) : Priv × Sh × Bool :=
   match a with
-  | .onceDo =>
-    ({ p with onceSeen := true }, if sh.once then sh else { sh with once := true, table := theTable })
-  | .readTable k => ({ p with out := p.out ++ [if p.onceSeen then sh.table k else bad] }, sh)
-  | .get =>
-    let (arr, pool') := poolGet sh.pool c
-    ({ p with held := some arr }, { sh with pool := pool' })
-  | .write vals => ({ p with held := p.held.map (overlay vals), fields := vals }, sh)
-  | .clone k => ({ p with out := p.out ++ (match p.held with | some _ => p.fields.take k | none => [bad]) }, sh)
-  | .put =>
+  | .read r => ({ p with out := p.out ++ [sh.cell r] }, sh, true)
+  | .write r v => (p, { sh with cell := upd sh.cell r v }, true)
+  | .onceDo o =>
+    match sh.once o with
+    | .idle => (p, { sh with once := upd sh.once o (.running i 0) }, false)
+    | .running j k =>
+      if j = i then
+        if k < closureLen env o then
+          (p, { sh with cell := closureStep env o k sh.cell, once := upd sh.once o (.running i (k + 1)) }, false)
+        else (p, { sh with once := upd sh.once o .done }, false)
+      else (p, sh, false)
+    | .done => (p, sh, true)
+  | .get q =>
     match p.held with
-    | some a => ({ p with held := none }, { sh with pool := a.map (fun _ => 0) :: sh.pool })
-    | none => (p, sh)
-  | .optRead o => ({ p with out := p.out ++ [(sh.opts o).getD stdFactory] }, sh)
-  | .loc v => ({ p with out := p.out ++ [v] }, sh)
+    | some _ => ({ p with out := p.out ++ [bad] }, sh, true)
+    | none =>
+      let pl := sh.pool q
+      if c = 0 ∨ pl = [] then
+        ({ p with held := some sh.next }, { sh with heap := upd sh.heap sh.next [], next := sh.next + 1 }, true)
+      else
+        let n := (c - 1) % pl.length
+        ({ p with held := some (pl.getD n 0) }, { sh with pool := upd sh.pool q (removeNth pl n) }, true)
+  | .use vals =>
+    match p.held with
+    | some id =>
+      let content := overlay vals (sh.heap id)
+      ({ p with out := p.out ++ content.take vals.length }, { sh with heap := upd sh.heap id content }, true)
+    | none => ({ p with out := p.out ++ [bad] }, sh, true)
+  | .readObj =>
+    match p.held with
+    | some id => ({ p with out := p.out ++ sh.heap id }, sh, true)
+    | none => ({ p with out := p.out ++ [bad] }, sh, true)
+  | .reset =>
+    match p.held with
+    | some id => (p, { sh with heap := upd sh.heap id [] }, true)
+    | none => ({ p with out := p.out ++ [bad] }, sh, true)
+  | .put q =>
+    match p.held with
+    | some id => ({ p with held := none, lastPut := some id }, { sh with pool := upd sh.pool q (id :: sh.pool q) }, true)
+    | none => ({ p with out := p.out ++ [bad] }, sh, true)
+  | .putAgain q =>
+    match p.lastPut with
+    | some id => (p, { sh with pool := upd sh.pool q (id :: sh.pool q) }, true)
+    | none => (p, sh, true)
+  | .optRead o => ({ p with out := p.out ++ [(sh.opts o).getD stdFactory] }, sh, true)
+  | .optWrite o v => (p, { sh with opts := upd sh.opts o (some v) }, true)
+  | .loc v => ({ p with out := p.out ++ [v] }, sh, true)
 
-/-- an operation in flight: private state and the actions still to do -/
+/-- an operation in flight: private state, the actions completed, the actions still to do -/
 structure Thread where
   priv : Priv
   done : List Act
@@ -124,55 +182,138 @@ structure Cfg where
 def initCfg (progs : List (List Act)) (sh0 : Sh) : Cfg :=
   { sh := sh0, threads := progs.map (fun p => { priv := initPriv, done := [], todo := p }) }
 
-/-- thread `i` takes its next action (nothing happens if it has none or `i` is out of range) -/
-def stepThread (cfg : Cfg) (i c : Nat) : Cfg :=
+/-- thread `i` is scheduled once (nothing happens if it has finished or `i` is out of range) -/
+def stepThread (env : Env) (cfg : Cfg) (i c : Nat) : Cfg :=
   match cfg.threads[i]? with
   | none => cfg
   | some t =>
     match t.todo with
     | [] => cfg
     | a :: rest =>
-      let (p', sh') := step a c t.priv cfg.sh
-      { sh := sh', threads := cfg.threads.set i { priv := p', done := t.done ++ [a], todo := rest } }
+      let r := step env i a c t.priv cfg.sh
+      { sh := r.2.1,
+        threads := cfg.threads.set i (if r.2.2 then { priv := r.1, done := t.done ++ [a], todo := rest }
+                                     else { t with priv := r.1 }) }
 
 /-- run a schedule: entries `(thread, choice)` -/
-def exec (cfg : Cfg) (sched : List (Nat × Nat)) : Cfg :=
-  sched.foldl (fun cfg e => stepThread cfg e.1 e.2) cfg
+def exec (env : Env) (cfg : Cfg) (sched : List (Nat × Nat)) : Cfg :=
+  sched.foldl (fun cfg e => stepThread env cfg e.1 e.2) cfg
 
-/-- the private effect of an action as a function of the operation's own history only (no shared state): what the
-operation sees when it runs alone from a well-formed initial shared state with options `opts0` -/
-def privSolo (opts0 : Nat → Option Nat) (a : Act) (p : Priv) : Priv :=
+/-! ### the operation alone, as a function of its own actions only -/
+
+structure Solo where
+  holding : Bool
+  /-- content of the held object as far as the operation's own actions determine it (`none`: as found) -/
+  known : Option (List Nat)
+  out : List Nat
+
+def initSolo : Solo := { holding := false, known := none, out := [] }
+
+/-- the effect of a completed action on what the operation has observed, computed from the INITIAL shared state's data
+rows and option objects and the operation's own history — no other operation appears -/
+def soloStep (env : Env) (cell0 : Nat → Nat) (opts0 : Nat → Option Nat) (a : Act) (s : Solo) : Solo :=
   match a with
-  | .onceDo => { p with onceSeen := true }
-  | .readTable k => { p with out := p.out ++ [if p.onceSeen then theTable k else bad] }
-  | .get => { p with held := some zeroArr }
-  | .write vals => { p with held := p.held.map (overlay vals), fields := vals }
-  | .clone k => { p with out := p.out ++ (match p.held with | some _ => p.fields.take k | none => [bad]) }
-  | .put => { p with held := none }
-  | .optRead o => { p with out := p.out ++ [(opts0 o).getD stdFactory] }
-  | .loc v => { p with out := p.out ++ [v] }
+  | .read r => { s with out := s.out ++ [match env.onceOf r with | some _ => env.built r | none => cell0 r] }
+  | .write _ _ => s
+  | .onceDo _ => s
+  | .get _ => if s.holding then { s with out := s.out ++ [bad] } else { s with holding := true, known := none }
+  | .use vals =>
+    if s.holding then { s with out := s.out ++ vals, known := s.known.map (overlay vals) } else { s with out := s.out ++ [bad] }
+  | .readObj => if s.holding then { s with out := s.out ++ s.known.getD [] } else { s with out := s.out ++ [bad] }
+  | .reset => if s.holding then { s with known := some [] } else { s with out := s.out ++ [bad] }
+  | .put _ => if s.holding then { s with holding := false, known := none } else { s with out := s.out ++ [bad] }
+  | .putAgain _ => s
+  | .optRead o => { s with out := s.out ++ [(opts0 o).getD stdFactory] }
+  | .optWrite _ _ => s
+  | .loc v => { s with out := s.out ++ [v] }
 
-/-- the operation run alone: all its actions, one after the other (any `Get` choices `cs`) -/
-def soloExec (prog : List Act) (sh0 : Sh) (cs : List Nat) : Cfg :=
-  exec (initCfg [prog] sh0) (cs.map (fun c => (0, c)))
+def soloRun (env : Env) (cell0 : Nat → Nat) (opts0 : Nat → Option Nat) (acts : List Act) : Solo :=
+  acts.foldl (fun s a => soloStep env cell0 opts0 a s) initSolo
 
-/-! ### composite operations of the real code, as programs -/
+/-- scheduled steps an action needs at most when its thread is never blocked (`Do`: claim, every closure step, finish, pass) -/
+def actCost (env : Env) : Act → Nat
+  | .onceDo o => closureLen env o + 3
+  | _ => 1
 
-/-- `mesgdef.NewXxx(&mesg)` / `Reset`: Get, append into `arr[:0]`, clone the filled prefix, zero, Put -/
-def progNew (vals : List Nat) : List Act := [.get, .write vals, .clone vals.length, .put]
+/-- enough scheduled steps for the program run alone from any state -/
+def soloFuel (env : Env) (prog : List Act) : Nat := (prog.map (actCost env)).sum
 
-/-- `x.ToMesg(options)` with a caller-provided options object `o` (its `Factory` set or nil) -/
-def progToMesg (o : Nat) (vals : List Nat) : List Act :=
-  [.optRead o, .get, .write vals, .clone vals.length, .put]
+/-! ### well-formed programs: the guards the inventory obligations establish for the real entry points -/
 
-/-- `x.ToMesg(nil)` (package default options: read-only) -/
-def progToMesgNil (vals : List Nat) : List Act := [.get, .write vals, .clone vals.length, .put]
+structure WfSt where
+  holding : Bool
+  clean : Bool
+  seen : List Nat
 
-/-- `factory.CreateMesg(k)` -/
-def progCreateMesg (k : Nat) : List Act := [.onceDo, .readTable k]
+def initWf : WfSt := { holding := false, clean := false, seen := [] }
 
-/-- the program has an (unsynchronised) access to options object `o` -/
-def mentions (prog : List Act) (o : Nat) : Bool :=
-  prog.any (fun a => match a with | .optRead o' => o' == o | _ => false)
+/-- one action against the static discipline; `none` = violated -/
+def wfStep (env : Env) (a : Act) (w : WfSt) : Option WfSt :=
+  match a with
+  | .read r =>
+    if env.racy r then none else
+    match env.onceOf r with
+    | none => some w
+    | some o => if w.seen.contains o then some w else none     -- a lazily built row is read only after the own `Do`
+  | .write _ _ => none                                          -- no unguarded write of a shared row
+  | .onceDo o => some { w with seen := o :: w.seen }
+  | .get _ => if w.holding then none else some { w with holding := true, clean := false }
+  | .use _ => if w.holding then some w else none
+  | .readObj => if w.holding && w.clean then some w else none   -- content is looked at only after the own reset
+  | .reset => if w.holding then some { w with clean := true } else none
+  | .put _ => if w.holding then some { w with holding := false, clean := false } else none
+  | .putAgain _ => none                                         -- an object goes back to the pool once
+  | .optRead _ => some w
+  | .optWrite _ _ => none                                       -- a caller's options object is only read
+  | .loc _ => some w
+
+def wfRun (env : Env) : List Act → WfSt → Option WfSt
+  | [], w => some w
+  | a :: rest, w => match wfStep env a w with
+    | none => none
+    | some w' => wfRun env rest w'
+
+def wf (env : Env) (prog : List Act) : Bool := (wfRun env prog initWf).isSome
+
+/-! ### programs of the real entry points, derived from the regenerated touches -/
+
+open Fit.SharedInv in
+/-- environment of the inventory: which `Once` builds which row, which rows have an open (unguarded, unexcepted) writer -/
+def envOfRows (funcs : Array String) (ex : List Exception) (rows : List Row) : Env :=
+  { onceOf := fun r => match rows[r]? with
+      | some row => if row.cat == .pool || row.cat == .once || row.cat == .mutex then none else row.onceOf
+      | none => none
+    body := fun o => (rows.filter fun row =>
+      !(row.cat == .pool || row.cat == .once || row.cat == .mutex) && row.onceOf == some o).map (·.id)
+    racy := fun r => match rows[r]? with
+      | some row => !(row.openWrites funcs ex).isEmpty
+      | none => false
+    built := fun r => 2 * r + 2
+    half := fun r => 2 * r + 1 }
+
+open Fit.SharedInv in
+/-- the program of one touch: how an entry point whose call graph touches row `t.row` like this acts on the row -/
+def progOfTouch (funcs : Array String) (ex : List Exception) (rows : List Row) (t : Touch) : List Act :=
+  match rows[t.row]? with
+  | none => [.write t.row 0]
+  | some row =>
+    match row.cat with
+    | .pool => if t.poolOK then [.get t.row, .reset, .use [t.row + 1], .readObj, .put t.row]
+               else [.get t.row, .readObj, .put t.row, .putAgain t.row]
+    | .once => []          -- the `Do` calls are issued where the rows it builds are touched
+    | .mutex => [.write t.row 0]   -- no package-level mutex exists; the model would have to be extended
+    | _ =>
+      let open_ := t.writers.filter fun w => !excepted funcs ex row w
+      if !open_.isEmpty then [.write t.row 1, .read t.row]
+      else match row.onceOf with
+        | some o =>
+          if t.reads && !t.readOnces.contains o then [.read t.row]           -- a read not dominated by the `Do`
+          else if t.reads || t.guardedWriters then [.onceDo o, .read t.row]
+          else []
+        | none => if t.reads || !t.writers.isEmpty then [.read t.row] else []
+
+open Fit.SharedInv in
+def progOfTouches (funcs : Array String) (ex : List Exception) (rows : List Row) (ts : List Touch) : List Act :=
+  ts.flatMap (progOfTouch funcs ex rows)
 
 end Fit.Shared
